@@ -155,8 +155,9 @@ META["C01"] = {
 
 META["C02"] = {
     "title": "After unsubscribe() returns the subscriber is never called again",
-    "rule": "cases = (random pipeline biased to scheduler-using operators, timed scripts, schedule seed, cut step, unsubscribe() | guard drop). A dry run finds the schedule length and the step of the first terminal; the cut is then placed uniformly before the terminal (5/6) or anywhere (1/6). After the cut the explorer keeps going: remaining events are injected, every pending timer fired, every ready task run. Non-trivial: cut before the terminal while a timer was pending, a task ready, or script events still to come; distinct = hash(pipeline, scripts, flavour, cut step, schedule seed). cut_* counters give the histogram of where cuts fell. A share of the cases (counter runs_on_the_real_LocalPool) is built with the library's own `impl Scheduler for futures::executor::LocalSpawner` and run on the real futures LocalPool (run_until_stalled / try_run_one) instead of the harness executor. In a third of the cases every finalize callback that runs while unsubscribe() is in progress pushes one more item into hot input 0 (user code acting during the teardown; counter cuts_with_finalize_callbacks_emitting_during_teardown).",
+    "rule": "cases = (random pipeline biased to scheduler-using operators, timed scripts, schedule seed, cut step, unsubscribe() | guard drop). A dry run finds the schedule length and the step of the first terminal; the cut is then placed uniformly before the terminal (5/6) or anywhere (1/6). After the cut the explorer keeps going: remaining events are injected, every pending timer fired, every ready task run. Non-trivial: cut before the terminal while a timer was pending, a task ready, or script events still to come; distinct = hash(pipeline, scripts, flavour, cut step, schedule seed). cut_* counters give the histogram of where cuts fell. A share of the cases (counter runs_on_the_real_LocalPool) is built with the library's own `impl Scheduler for futures::executor::LocalSpawner` and run on the real futures LocalPool (run_until_stalled / try_run_one) instead of the harness executor. In a third of the cases every finalize callback that runs while unsubscribe() is in progress pushes one more item into hot input 0 (user code acting during the teardown; counter cuts_with_finalize_callbacks_emitting_during_teardown). Half of the guard cases leave the guard's scope by a panic that is caught further up (the guard is dropped by the unwinder). Sources that cannot be cancelled (counters cuts_above_a_source_that_cannot_be_cancelled, deaf_cuts_with_source_events_still_to_come): a harness stage right above the hot source swallows the unsubscription, so the source keeps pushing into the pipeline after unsubscribe() returned ('whatever its sources do afterwards'); pipelines source . deaf . [transparent] . observe_on | delay(0|1|5 ms|250|1500 us) . [one single-input operator], cut at a random step: nothing may reach the subscriber afterwards, neither what was queued nor what arrives later.",
     "assumptions": COMMON_ASSUME + [
+        "above a source that cannot be cancelled only deliveries that pass through a scheduled task are owed silence; delay forwards an ERROR synchronously (errors are not delayed, by design), so failing uncancellable sources are paired with observe_on only",
         "deliveries are judged by their logical begin-stamp against the stamp taken when unsubscribe() returned (single-threaded part: nothing can be in flight at that moment)",
         "the racing-thread part (emitter vs unsubscriber under the baton scheduler) is reported under the same check when present in the evidence (thread_* counters)",
     ],
@@ -164,7 +165,7 @@ META["C02"] = {
     "level_text": "Exploration: every sampled (pipeline, schedule, cut point) is executed and monitored; held on the executions counted in the evidence.",
     "level_note": "Trusted: harness probe, virtual clock, arena executor, baton scheduler.",
     "design_ref": "DESIGN.md §5 C02",
-    "require": {"quick": {"cut_with_pending_timer": 2000, "cut_with_ready_task": 1000}, "thorough": {"cut_with_pending_timer": 50000}},
+    "require": {"quick": {"cut_with_pending_timer": 2000, "cut_with_ready_task": 1000, "cuts_above_a_source_that_cannot_be_cancelled": 40000, "deaf_cuts_with_source_events_still_to_come": 10000}, "thorough": {"cut_with_pending_timer": 50000, "cuts_above_a_source_that_cannot_be_cancelled": 2000000}},
 }
 
 META["C05"] = {
